@@ -8,7 +8,7 @@
 
 int vk_cur, vk_preempt_on, vk_preempted, vk_crash_at[2], vk_dead[2], vk_nsys[2];
 int vk_eintr_budget, vk_eintr_seen, vk_fault_budget, vk_fault_seen, vk_expect_noblock;
-int vk_bad_close, vk_bad_munmap;
+int vk_bad_close, vk_bad_munmap, vk_preempt_at;
 static int vk_nested;
 
 /* errno: one per emulated process (`errno` expands to *__errno_location()) */
@@ -36,6 +36,7 @@ int vk_slot(const char *name) {
     if (eq) return s;
   }
   VASSERT(vk_nnames < VK_NSLOT, "kernel model bound: number of distinct names");
+  VASSUME(vk_nnames < VK_NSLOT);
   int s = vk_nnames++;
   for (int i = 0; i < VK_NAMELEN - 1; i++) { vk_names[s][i] = name[i]; if (name[i] == 0) break; }
   return s;
@@ -59,7 +60,15 @@ static int vk_semh_obj[VK_NSEMH], vk_semh_proc[VK_NSEMH], vk_semh_open[VK_NSEMH]
 /* ---- shared memory ---- */
 static int vk_nshm;
 static long vk_shmsize[VK_NSHM];
-static unsigned char vk_shmmem[VK_NSHM][VK_SEGMAX];
+/* backing store: one flat array per object (a 2-D array costs a wide barrel shifter per byte access) */
+static unsigned char vk_m0[VK_SEGMAX], vk_m1[VK_SEGMAX], vk_m2[VK_SEGMAX], vk_m3[VK_SEGMAX],
+                     vk_m4[VK_SEGMAX], vk_m5[VK_SEGMAX], vk_m6[VK_SEGMAX], vk_m7[VK_SEGMAX];
+unsigned char *vk_shm_mem(int obj) {
+  switch (obj) {
+    case 0: return vk_m0; case 1: return vk_m1; case 2: return vk_m2; case 3: return vk_m3;
+    case 4: return vk_m4; case 5: return vk_m5; case 6: return vk_m6; default: return vk_m7;
+  }
+}
 static int vk_nfd;
 static int vk_fd_obj[VK_NFD], vk_fd_proc[VK_NFD], vk_fd_open[VK_NFD];
 static int vk_nmap;
@@ -76,7 +85,7 @@ void vk_kill(int p) { if (!vk_dead[p]) { vk_dead[p] = 1; vk_reap(p); } }
 
 /* common entry of every system call; returns 1 when the caller is dead (call is a no-op) */
 static int vk_enter(void) {
-  if (vk_preempt_on && !vk_nested && ND_BOOL()) {
+  if (vk_preempt_on && !vk_nested && (vk_preempt_at ? vk_nsys[vk_cur] + 1 == vk_preempt_at : ND_BOOL())) {
     int me = vk_cur;
     vk_nested = 1; vk_preempt_on = 0; vk_preempted = 1;
     vk_cur = 1 - me;
@@ -122,12 +131,14 @@ sem_t *vm_sem_open_x(const char *name, int oflag, unsigned mode, unsigned value,
     } else {
       if (value > (unsigned) SEM_VALUE_MAX) { errno = EINVAL; return SEM_FAILED; }
       VASSERT(vk_nsem < VK_NSEM, "kernel model bound: semaphore objects");
+      VASSUME(vk_nsem < VK_NSEM);
       obj = vk_nsem++;
       vk_semval[obj] = (int) value;
       vk_semname[slot] = obj + 1;
     }
   } else if (obj < 0) { errno = ENOENT; return SEM_FAILED; }
   VASSERT(vk_nsemh < VK_NSEMH, "kernel model bound: semaphore handles");
+  VASSUME(vk_nsemh < VK_NSEMH);
   int h = vk_nsemh++;
   vk_semh_obj[h] = obj; vk_semh_proc[h] = vk_cur; vk_semh_open[h] = 1;
   return &vk_semh_mem[h];
@@ -204,13 +215,15 @@ int vm_shm_open(const char *name, int oflag, mode_t mode) {
     if (obj >= 0) {
       if (oflag & O_EXCL) { errno = EEXIST; return -1; }
     } else {
-      VASSERT(vk_nshm < VK_NSHM, "kernel model bound: shm objects");
+      VASSERT(vk_nshm < VK_NSHM && vk_nshm < 8, "kernel model bound: shm objects");
+      VASSUME(vk_nshm < VK_NSHM && vk_nshm < 8);
       obj = vk_nshm++;
       vk_shmsize[obj] = 0;          /* a new object has length zero */
       vk_shmname[slot] = obj + 1;
     }
   } else if (obj < 0) { errno = ENOENT; return -1; }
   VASSERT(vk_nfd < VK_NFD, "kernel model bound: descriptors");
+  VASSUME(vk_nfd < VK_NFD);
   int f = vk_nfd++;
   vk_fd_obj[f] = obj; vk_fd_proc[f] = vk_cur; vk_fd_open[f] = 1;
   return f + VK_FD_BASE;
@@ -237,9 +250,11 @@ int vm_ftruncate(int fd, off_t len) {
   if (f < 0) { errno = EBADF; return -1; }
   if (len < 0) { errno = EINVAL; return -1; }
   VASSERT(len <= VK_SEGMAX, "kernel model bound: segment length");
+  VASSUME(len <= VK_SEGMAX);
   int obj = vk_fd_obj[f];
   /* bytes between the old and the new length read as zero: objects are never shrunk-then-grown here */
   VASSERT(len >= vk_shmsize[obj], "kernel model bound: segments only grow");
+  VASSUME(len >= vk_shmsize[obj]);
   vk_shmsize[obj] = (long) len;
   return 0;
 }
@@ -261,11 +276,13 @@ void *vm_mmap(void *addr, size_t len, int prot, int flags, int fd, off_t off) {
   if (f < 0) { errno = EBADF; return MAP_FAILED; }
   if (len == 0 || off != 0 || !(flags & MAP_SHARED)) { errno = EINVAL; return MAP_FAILED; }
   VASSERT(len <= VK_SEGMAX, "kernel model bound: mapping length");
+  VASSUME(len <= VK_SEGMAX);
   VASSERT(vk_nmap < VK_NMAP, "kernel model bound: mappings");
+  VASSUME(vk_nmap < VK_NMAP);
   int m = vk_nmap++;
   vk_map_obj[m] = vk_fd_obj[f]; vk_map_proc[m] = vk_cur;
   vk_map_pages[m] = (long) ((len + VK_PAGE - 1) / VK_PAGE);
-  return &vk_shmmem[vk_fd_obj[f]][0];
+  return vk_shm_mem(vk_fd_obj[f]);
 }
 
 int vm_munmap(void *addr, size_t len) {
@@ -273,7 +290,7 @@ int vm_munmap(void *addr, size_t len) {
   if (len == 0) { errno = EINVAL; return -1; }
   long pages = (len > (size_t) VK_SEGMAX) ? VK_NPAGES : (long) ((len + VK_PAGE - 1) / VK_PAGE);
   for (int m = 0; m < VK_NMAP; m++) {
-    if (m < vk_nmap && vk_map_pages[m] > 0 && vk_map_proc[m] == vk_cur && addr == (void *) &vk_shmmem[vk_map_obj[m]][0]) {
+    if (m < vk_nmap && vk_map_pages[m] > 0 && vk_map_proc[m] == vk_cur && addr == (void *) vk_shm_mem(vk_map_obj[m])) {
       vk_map_pages[m] = (pages >= vk_map_pages[m]) ? 0 : vk_map_pages[m] - pages;   /* the tail stays mapped */
       return 0;
     }
@@ -297,13 +314,12 @@ int vk_sem_obj_of(const sem_t *s) { int h = vk_semh_index(s); return (h >= 0 && 
 int vk_sem_handles(int p) { int n = 0; for (int i = 0; i < VK_NSEMH; i++) if (vk_semh_open[i] && vk_semh_proc[i] == p) n++; return n; }
 int vk_shm_linked(int slot) { return vk_shmname[slot] - 1; }
 long vk_shm_size(int obj) { return vk_shmsize[obj]; }
-unsigned char *vk_shm_mem(int obj) { return &vk_shmmem[obj][0]; }
-int vk_shm_obj_at(const void *a) { for (int i = 0; i < VK_NSHM; i++) if (a == (const void *) &vk_shmmem[i][0]) return i; return -1; }
+int vk_shm_obj_at(const void *a) { for (int i = 0; i < VK_NSHM; i++) if (a == (const void *) vk_shm_mem(i)) return i; return -1; }
 long vk_mapped_pages(int p) { long n = 0; for (int m = 0; m < VK_NMAP; m++) if (vk_map_proc[m] == p && m < vk_nmap) n += vk_map_pages[m]; return n; }
 long vk_map_len(int p, const void *a) {
   long best = 0;
   for (int m = 0; m < VK_NMAP; m++)
-    if (m < vk_nmap && vk_map_proc[m] == p && vk_map_pages[m] > 0 && a == (const void *) &vk_shmmem[vk_map_obj[m]][0] && vk_map_pages[m] * VK_PAGE > best)
+    if (m < vk_nmap && vk_map_proc[m] == p && vk_map_pages[m] > 0 && a == (const void *) vk_shm_mem(vk_map_obj[m]) && vk_map_pages[m] * VK_PAGE > best)
       best = vk_map_pages[m] * VK_PAGE;
   return best;
 }
